@@ -45,3 +45,10 @@ CHECKS["C06"] = dict(
  text="Every tree (leaf op leaf) over 33 literals of the four numeric kinds (boundary values, incl. the int literal that does not fit 32 bits) x 10 foldable operators, unary minus (also doubled), `!`, `get`, `or` with nil/present, list nesting; depth-2 trees (T op L), (L op T), -(T) over 8 leaves (quick: every 16th; thorough: all 105k); depth-3 trees of two shapes over 4 leaves (512k). Folded (literals) and unfolded (same tree over variables) programs must print the same value, the same run-time kind (hook H2) and the same `typeof`, and the compiler must reject the literal form exactly when the run-time evaluation fails.",
  note="Dev profile. When both renderings are accepted and both die of the same dynamic type error (e.g. unary minus on a byte) the case is attributed to C02, not C06. Float digits compared by value.",
  design_ref="DESIGN.md section 4, C06")
+
+CHECKS["C10"] = dict(
+ category="fault_enumeration",
+ technique="exhaustive fault enumeration over (declaration context, write form, write context, constant type) with paired positive controls, every triple compiled and run by the real CLI",
+ text="All expressible triples: const declared at module level / in a function / in a block, class names, imported module names and exported members (const and non-const, scalar, list, function) x 16 write forms (=, typed =, += -= *= /= %=, ?= as statement / if / while condition, modify, typed modify, index =, index +=, loop-counter reuse, unpacking) x 9 write contexts (same scope, block, nested block, else, while body, from body, nested function, function in function, method) x 3 (quick) / 6 (thorough) constant types. The compiler must reject; if it accepts, the program is run and the constant observed. Every case has a positive control (same write, non-const) that must compile, so a compiler that rejects everything cannot pass.",
+ note="A plain (non-modify) assignment inside a nested function declares a local by the language's rules; there acceptance is allowed provided the constant still holds its initializer.",
+ design_ref="DESIGN.md section 4, C10")
